@@ -294,6 +294,17 @@ def gbtInit (box : GBox) (tileShape : Option HowArg) (tiles : Option Tiling2) : 
       let t ← roiTiles (.shape2d box.nx box.ny) how
       return ⟨box, t⟩
 
+/-- `GeoboxTiles(box, tile_shape, _tiles=…)` **as repaired** (fix2-C04, second commit): a tiling built
+from `tile_shape` whose base is not the GeoBox shape – chunk tuples that do not add up to it – raises
+`ValueError` instead of constructing tiles outside the GeoBox.  (`gbtInit` above is the constructor as
+found; a given `_tiles` is still used as is: `_crop` / `clip` pass consistent ones.) -/
+def gbtInitR (box : GBox) (tileShape : Option HowArg) (tiles : Option Tiling2) : Res GeoboxTiles :=
+  match tiles with
+  | some t => .ok ⟨box, t⟩
+  | none => do
+    let g ← gbtInit box tileShape none
+    if g.tiles.y.base = box.ny ∧ g.tiles.x.base = box.nx then .ok g else .error .valueError
+
 /-! ## 4. `planes_yx(yx_roi)`, `WindowFromSlice`, `roi_shape` -/
 
 /-- a member of a plane index: an int on an extra axis, or a member of the `Y, X` window -/
